@@ -27,6 +27,7 @@ struct SampleRun {
             else if (kind == "digit") push(8, arg == "xm1" ? Bn::sub(K().absx, Bn(1)) : arg == "x" ? K().absx : Bn(0));
             else if (kind == "tuple") tuple(arg == "r" ? K().r : arg == "r+1" ? Bn::add(K().r, Bn(1)) : arg == "r-1" ? Bn::sub(K().r, Bn(1)) : arg == "0" ? Bn(0) : arg == "1" ? Bn(1) : arg == "x" ? K().absx : Bn(2));
             else if (kind == "carry") { Bn d[4]; if (carry_tuple(n, (uint64_t) env.step * 131 + env.lib_calls, d)) { for (int i = 0; i < 4; i++) push(8, d[i]); env.count("probe:random_exponent_digits_with_carry_through_all_ones_limb"); } }
+            else if (kind == "torsion1" || kind == "torsion2") { int g = kind == "torsion1" ? 1 : 2; std::vector<uint8_t> raw; if (torsion_candidate_raw(R, g, (uint64_t) n, raw)) { env.stream.push(48, std::vector<uint8_t>(raw.begin(), raw.begin() + 48)); if (g == 2) env.stream.push(48, std::vector<uint8_t>(raw.begin() + 48, raw.end())); env.stream.push(1, std::vector<uint8_t>(1, (uint8_t) (n & 1))); } }
             else if (kind == "sign") { std::vector<uint8_t> b(1, (uint8_t) n); env.stream.push(1, b); }
             else if (kind == "const") { for (int i = 0; i < 6; i++) { env.stream.push(8, std::vector<uint8_t>(8, (uint8_t) n)); } env.stream.push(32, std::vector<uint8_t>(32, (uint8_t) n)); env.stream.push(48, std::vector<uint8_t>(48, (uint8_t) n)); }
             env.count("fault:stream_" + kind);
@@ -265,7 +266,7 @@ struct SampleScenario : Scenario {
         int n = r.range(4, 24);
         static const char* f8[] = {"storm8:3", "storm8:7", "storm8:40", "digit:xm1", "digit:x", "tuple:r", "tuple:r+1", "tuple:r-1", "tuple:0", "tuple:1", "tuple:x", "const:255", "const:0", "carry:0", "carry:1"};
         static const char* f32[] = {"storm32:2", "storm32:9", "storm32:60", "fr:r-1", "fr:r", "fr:r+1", "fr:0", "fr:r-1hi", "const:255", "const:0", "const:127"};
-        static const char* f48[] = {"storm48:2", "storm48:11", "fq:q-1", "fq:q", "fq:q+1", "fq:0", "fq:q-1hi", "sign:0", "sign:1", "sign:254", "const:255", "const:0"};
+        static const char* f48[] = {"storm48:2", "storm48:11", "fq:q-1", "fq:q", "fq:q+1", "fq:0", "fq:q-1hi", "sign:0", "sign:1", "sign:254", "const:255", "const:0", "torsion1:3", "torsion2:5", "torsion1:8", "torsion2:12"};
         auto faults = [&](const char** tab, size_t nt) { std::vector<std::string> v; if (r.chance(1, 2)) return v; int k = r.range(1, 3); for (int i = 0; i < k; i++) v.push_back(tab[r.below(nt)]); return v; };
         static const char* kcodes[] = {"0", "1", "2", "r-1", "r", "r+1", "2r", "2r+1", "max", "2^255", "2^64", "2^64+3", "2^64-1", "2^100+12345", "2^128-1", "2^128", "2^192", "2^32", "2^63", "2^127+1"};
         for (int i = 0; i < n; i++) {
@@ -273,7 +274,7 @@ struct SampleScenario : Scenario {
             if (focus == 7) k = r.chance(3, 4) ? r.range(4, 6) : k;
             if (focus == 10) k = r.chance(3, 4) ? (r.chance(1, 2) ? r.range(0, 3) : r.range(7, 9)) : k;
             if (k <= 1) { int which = r.range(0, 3); p.ops.push_back({"ZP", {ss, which}, which == 2 ? faults(f8, 15) : which == 3 ? faults(f48, 7) : faults(f32, 11)}); }
-            else if (k <= 3) p.ops.push_back({"GEN", {ss, r.range(0, 1), r.range(0, 1)}, faults(f48, 12)});
+            else if (k <= 3) p.ops.push_back({"GEN", {ss, r.range(0, 1), r.range(0, 1)}, faults(f48, 16)});
             else if (k <= 5) p.ops.push_back({"GTR", {ss, (int64_t) r.below(8), r.chance(1, 4), r.chance(1, 3)}, faults(f8, 15)});
             else if (k == 6) p.ops.push_back({"GTPOW", {(int64_t) r.below(8), r.chance(1, 3) ? 1 + 2 * (int64_t) r.below(3) : 0}, {r.chance(1, 3) ? "x" + rhex(r, 32) : std::string(kcodes[r.below(20)])}});
             else if (k == 7) {
